@@ -4,6 +4,7 @@ import (
 	"encoding/json"
 	"flag"
 	"fmt"
+	"golang.org/x/tools/go/ssa"
 	"os"
 	"path/filepath"
 	"sort"
@@ -83,6 +84,34 @@ func contractServes(c *Contract, p string) bool {
 	return false
 }
 
+// callsTagged: the function calls one whose contract has a precondition tagged p
+// (the obligation to establish it is generated in the caller's VC).
+func (w *World) callsTagged(c *Contract, p string) bool {
+	if c.Fn == nil {
+		return false
+	}
+	for _, b := range c.Fn.Blocks {
+		for _, instr := range b.Instrs {
+			call, ok := instr.(ssa.CallInstruction)
+			if !ok {
+				continue
+			}
+			f := call.Common().StaticCallee()
+			if f == nil {
+				continue
+			}
+			if cc, ok := w.Contracts[f.String()]; ok {
+				for _, cl := range cc.Raw.Clauses {
+					if cl.Kind == "requires" && hasProp(cl.Props, p) {
+						return true
+					}
+				}
+			}
+		}
+	}
+	return false
+}
+
 type checkRun struct {
 	prop    string
 	tier    string
@@ -132,7 +161,7 @@ func gather(w *World, p string) *checkRun {
 	for _, layer := range passes {
 		w.layer = layer
 		for _, c := range w.ContractList {
-			if !contractServes(c, p) {
+			if !contractServes(c, p) && !(layer != "" && w.callsTagged(c, p)) {
 				continue
 			}
 			if c.Fn == nil {
@@ -431,6 +460,28 @@ func cmdCheck(args []string) int {
 		o := &Obligation{Name: names[0], Kind: "missing", Status: "not-generated", Fn: fnName,
 			Output: fmt.Sprintf("%s\n%d obligations of the baseline are no longer generated for this function:\n  %s", fnOut, len(names), strings.Join(names, "\n  "))}
 		report(o, "obligations discharged on the unchanged tree can no longer be generated (the function left the verified subset, or a function / contract clause no longer binds): "+fnOut)
+	}
+	// a function that had obligations in the baseline and is now outside the supported subset: none of its
+	// obligations (of whatever kind) can be decided any more
+	for _, os_ := range run.outside {
+		fnName := os_
+		if i := strings.Index(os_, ": "); i >= 0 {
+			fnName = os_[:i]
+		}
+		if _, done := missByFn[fnName]; done {
+			continue
+		}
+		had := 0
+		for _, n := range missing {
+			if strings.HasPrefix(n, fnName+"#") {
+				had++
+			}
+		}
+		if had == 0 {
+			continue
+		}
+		o := &Obligation{Name: fnName + "#in-subset", Kind: "missing", Status: "not-generated", Fn: fnName, Output: os_}
+		report(o, fmt.Sprintf("the function was verified on the unchanged tree (%d obligations for this property) and is now outside the supported subset: %s", had, os_))
 	}
 	// stale known findings: listed but the obligation now holds -> not printed
 
